@@ -16,9 +16,9 @@ PLAN = dict(
     build=["c12"],
     mc=[
         dict(module="MC_Arith", cfg_quick="MC_Arith_ints_quick.cfg", cfg_thorough="MC_Arith_ints_thorough.cfg",
-             workers=4, timeout_quick=600, timeout_thorough=2400),
+             workers=6, timeout_quick=900, timeout_thorough=2400, args=["-coverage", "600"]),
         dict(module="MC_Arith", cfg_quick="MC_Arith_big_quick.cfg", cfg_thorough="MC_Arith_big_thorough.cfg",
-             workers=4, timeout_quick=900, timeout_thorough=5400),
+             workers=6, timeout_quick=1200, timeout_thorough=5400, args=["-coverage", "600"]),
     ],
     drive=[dict(bin="c12", args=["c12"])],
     tv=[
